@@ -7,6 +7,7 @@
 //!    event-handler invocations per ring since the previous step is compared with the model.
 
 use std::os::unix::io::AsRawFd;
+use std::time::Duration;
 
 use proptest::prelude::*;
 use serde::{Deserialize, Serialize};
@@ -18,6 +19,7 @@ use crate::daemon_fx::{new_eventfd, BeCfg, Fx, VMutex, VRw, GM};
 use crate::engine::Ctx;
 use crate::fdtrack::{count_id, file_id};
 use crate::rawclient::RawClient;
+use crate::sched::Sched;
 use crate::spec::{self, fe};
 
 #[derive(Serialize, Deserialize, Debug, Clone, Copy, Hash, PartialEq, Eq)]
@@ -379,6 +381,108 @@ pub fn run_race(ctx: &mut Ctx, c: &RaceCase) -> Result<(), String> {
     }
 }
 
+// ------------------------------------------------------------------ the same, with the worker held at a chosen point
+
+#[derive(Serialize, Deserialize, Debug, Clone)]
+pub struct HeldCase {
+    pub rwlock: bool,
+    pub reset: bool,
+    /// where the worker is kept while the deactivating message is processed:
+    /// 0 woken by epoll, kick not yet read; 1 kick read; 2 about to enter the device handler
+    pub point: u8,
+    pub rounds: u32,
+}
+
+const WORKER: &str = "vring_worker";
+const POINTS: [&str; 3] = ["worker.after_epoll", "worker.after_read_kick", "worker.before_dispatch"];
+
+/// Deterministic form of the race: the worker is parked at `point` with the guest kick under way, the deactivating
+/// message is processed and acknowledged meanwhile, the worker resumes, then the ring is activated again.  The kick
+/// is handled before or after, never dropped.
+fn run_held_generic<V: VringT<GM> + Clone + Send + Sync + 'static>(ctx: &mut Ctx, c: &HeldCase) -> Result<(), String> {
+    let mut fx: Fx<V> = Fx::new(BeCfg { num_queues: 1, ..Default::default() }).map_err(|e| format!("fixture: {e}"))?;
+    fx.connect().map_err(|e| format!("fixture: {e}"))?;
+    let cl = RawClient::new(fx.peer.as_ref().unwrap().try_clone().unwrap());
+    let pfbit = if c.reset { 0 } else { spec::VIRTIO_F_PROTOCOL_FEATURES };
+    let (b, _) = cl.get(fe::GET_FEATURES, &[], &[]).map_err(|e| format!("negotiation: {e}"))?;
+    let feats = spec::rd_u64(&b, 0);
+    let (b, _) = cl.get(fe::GET_PROTOCOL_FEATURES, &[], &[]).map_err(|e| format!("negotiation: {e}"))?;
+    cl.send(fe::SET_PROTOCOL_FEATURES, false, &b[..8], &[]).map_err(|e| format!("negotiation: {e}"))?;
+    let setf = spec::b_u64((feats & (1 << 32)) | pfbit);
+    let k = new_eventfd();
+    let mut setup: Vec<(u32, Vec<u8>, Vec<i32>)> = vec![(fe::SET_FEATURES, setf.clone(), vec![]), (fe::SET_VRING_KICK, spec::b_u64(0), vec![k.as_raw_fd()])];
+    if !c.reset {
+        setup.push((fe::SET_VRING_ENABLE, spec::b_vring_state(0, 1), vec![]));
+    }
+    for (code, body, fds) in setup {
+        if cl.ack(code, &body, &fds).map_err(|e| format!("setup: {e}"))? != 0 {
+            return Err(format!("setup message {code} refused"));
+        }
+    }
+    fx.barrier()?;
+    let point = POINTS[c.point as usize % 3];
+    let sched = Sched::install();
+    let res = (|| -> Result<(), String> {
+        let mut seen = fx.be.events().len();
+        for round in 0..c.rounds {
+            sched.arm(point, WORKER);
+            k.write(1).map_err(|e| e.to_string())?;
+            let parked = sched.wait_parked(|p| p.name == point && p.thread.starts_with(WORKER), Duration::from_secs(10));
+            let Some(parked) = parked else {
+                return Err(format!("round {round}: the worker did not reach {point} after a guest kick on an active ring"));
+            };
+            sched.disarm(point);
+            let (off, on) = if c.reset {
+                ((fe::RESET_DEVICE, vec![]), (fe::SET_FEATURES, setf.clone()))
+            } else {
+                ((fe::SET_VRING_ENABLE, spec::b_vring_state(0, 0)), (fe::SET_VRING_ENABLE, spec::b_vring_state(0, 1)))
+            };
+            // the deactivation is acknowledged while the worker stays where it is (a control path that needs the
+            // worker for this would show as a timeout of the acknowledgement, reported as such)
+            let acked = cl.ack(off.0, &off.1, &[]);
+            sched.release(parked.id);
+            match acked {
+                Ok(0) => {}
+                Ok(v) => return Err(format!("round {round}: deactivating message refused ({v})")),
+                Err(e) => return Err(format!("round {round}: deactivating message while the worker is at {point}: {e}")),
+            }
+            fx.barrier().map_err(|e| format!("round {round}: {e}"))?;
+            if cl.ack(on.0, &on.1, &[]).map_err(|e| format!("round {round}: {e}"))? != 0 {
+                return Err(format!("round {round}: activating message refused"));
+            }
+            fx.barrier().map_err(|e| format!("round {round}: {e}"))?;
+            let now = fx.be.events().len();
+            if now == seen {
+                return Err(format!(
+                    "round {round}: guest kick on an active ring, worker held at {point} while {} was processed and acknowledged: no event-handler call, neither before nor after the ring was activated again",
+                    if c.reset { "RESET_DEVICE" } else { "SET_VRING_ENABLE 0" }
+                ));
+            }
+            seen = now;
+        }
+        Ok(())
+    })();
+    sched.disarm_all();
+    sched.release_all();
+    sched.uninstall();
+    res?;
+    ctx.evals(c.rounds as u64);
+    ctx.class_n(&format!("held_rounds_at_{point}"), c.rounds as u64);
+    ctx.nontrivial(&("held", c.rwlock, c.reset, c.point));
+    ctx.sample(|| json!({"held": c}));
+    drop(cl);
+    fx.teardown();
+    Ok(())
+}
+
+pub fn run_held(ctx: &mut Ctx, c: &HeldCase) -> Result<(), String> {
+    if c.rwlock {
+        run_held_generic::<VRw>(ctx, c)
+    } else {
+        run_held_generic::<VMutex>(ctx, c)
+    }
+}
+
 fn alphabet(nrings: u8) -> Vec<Op> {
     let mut a = vec![Op::SetFeatures { pf: true }, Op::SetFeatures { pf: false }, Op::Reset];
     for r in 0..nrings {
@@ -411,7 +515,7 @@ pub fn run(ctx: &mut Ctx) {
     ctx.rule = "control-message histories over {SET_FEATURES with/without PROTOCOL_FEATURES, SET_VRING_KICK new/no descriptor, SET_VRING_CALL, \
                 SET_VRING_ENABLE 0/1, GET_VRING_BASE, RESET_DEVICE, guest kick on the current descriptor} against a real daemon (fresh daemon per \
                 history, both vring kinds); after every step a double barrier on the worker, then per-ring handler invocations are compared \
-                with the reference ring model. Exhaustive over all words up to the stated depth on 1 ring, random on 2 rings. Plus rounds of [kick, deactivate at once, activate] with an uncontrolled schedule: at least one handler call per round. Non-trivial = a \
+                with the reference ring model. Exhaustive over all words up to the stated depth on 1 ring, random on 2 rings. Plus rounds of [kick, deactivate at once, activate] with an uncontrolled schedule, and the same with the worker parked at each of its hold points (woken / kick read / before dispatch) while the deactivation is acknowledged: at least one handler call per round. Non-trivial = a \
                 kick while inactive followed by an activation, a descriptor replacement on a started ring, or disable/stop of an active ring; \
                 distinct op sequences."
         .into();
@@ -451,6 +555,16 @@ pub fn run(ctx: &mut Ctx) {
     let cases = ctx.tier.pick(1200u32, 300_000u32);
     let strat = (any::<bool>(), proptest::collection::vec(op_strategy(2), 1..=20)).prop_map(|(rwlock, ops)| Hist { rwlock, nrings: 2, ops });
     ctx.prop_check("random_2rings", cases, strat, |ctx, h| run_hist(ctx, h));
+
+    // kicks racing with a deactivation, the schedule chosen: worker parked at each of its three hold points during the deactivation
+    let rounds = ctx.tier.pick(25u32, 400u32);
+    let mut held = Vec::new();
+    for point in 0..3u8 {
+        for (rwlock, reset) in [(false, false), (true, false), (false, true), (true, true)] {
+            held.push(HeldCase { rwlock, reset, point, rounds });
+        }
+    }
+    ctx.enumerate("kick_held_across_deactivation", held, |ctx, c| run_held(ctx, c));
 
     // kicks racing with a deactivation (uncontrolled schedule; every schedule must retain or handle the kick)
     let rounds = ctx.tier.pick(1200u32, 20_000u32);
